@@ -20,7 +20,10 @@ CHECKS = {
              "`python -m behave`. Exploration is the right level: the verdict is a disjunction over unbounded trees; no finite proof "
              "object exists for the Python implementation, but every disjunct and container level is exercised many times.",
         note="Trusted: vf/refmodel.py (reference semantics from the statement and docs), the fixed step library, Hypothesis. "
-             "Not covered: hooks raising KeyboardInterrupt/SystemExit; user code that mutates the model."),
+             "Hooks raising KeyboardInterrupt / calling context.abort() are checked with a verdict-only oracle (the run fails). "
+             "Since round 9 one program in sixteen is blown up in one dimension (10-13 rows / scenarios / steps / rules / features / tags, "
+             "three- and four-digit line numbers, long names). Not covered: SystemExit from user code; user code that mutates the model "
+             "beyond the documented run-time calls (skip, mark_skipped, feature.skip, use_background, continue_after_failed_step)."),
     "C02": dict(
         level="exploration", design="DESIGN.md 5/C02",
         technique="property-based testing: exhaustive enumeration of all outcome sequences up to length 4 x flags + random longer "
